@@ -145,6 +145,7 @@ pub fn generate(out: &mut Out, rng: &Prng, thorough: bool, workdir: &std::path::
             bmca_since_slave_only: false,
             frames: Default::default(),
             view: Default::default(),
+            tlvo: Default::default(),
             meas: super::gen_inst::MeasOracle::default(),
             ex: InstExec::new(),
             out: &mut base_sink,
